@@ -27,9 +27,10 @@ type SiteDecl struct {
 }
 
 type SiteAssert struct {
-	Alias string
-	C     Clause
-	After bool // evaluated after the call returns (results available) instead of before
+	Alias  string
+	C      Clause
+	After  bool // evaluated after the call returns (results available) instead of before
+	Assume bool // a ghost definition: assumed, not proved (listed in the trusted base)
 }
 
 type LoopSpec struct {
@@ -67,6 +68,7 @@ type LetDecl struct {
 }
 
 type SpecFunc struct {
+	Macro  bool // expanded at each use in the caller's state (may read the heap)
 	Name   string
 	Params []qvar
 	Ret    string
@@ -83,12 +85,23 @@ type Lemma struct {
 	Arith string
 }
 
+// Decoded is an assumed postcondition of a decoder for a particular destination type:
+//   //@ decoded MerkleTreeLeaf by tls.Unmarshal: v.TimestampedEntry != nil
+// holds (when the decoder returns a nil error) for the object v points to.
+type Decoded struct {
+	Type   string
+	Callee string
+	C      Clause
+	Dir    string
+}
+
 type ContractFile struct {
 	Path      string
 	Dir       string
 	Contracts []*Contract
 	Specs     []*SpecFunc
 	Lemmas    []*Lemma
+	Decoded   []*Decoded
 }
 
 func parseClause(s, file string, line int) (Clause, error) {
@@ -173,7 +186,7 @@ func parseContractFile(path string) (*ContractFile, error) {
 			cur = &Contract{Func: rest, File: path, Line: ln, Loops: map[int]*LoopSpec{}, Dead: map[string]bool{}}
 			cf.Contracts = append(cf.Contracts, cur)
 			continue
-		case "uf", "spec":
+		case "uf", "spec", "macro":
 			// uf name(a T, b U) R
 			// spec [rec] name(a T, b U) R = body
 			rec := false
@@ -192,6 +205,9 @@ func parseContractFile(path string) (*ContractFile, error) {
 			}
 			sf := &SpecFunc{Name: strings.TrimSpace(rest[:lp]), Params: ps, Rec: rec, File: path, Line: ln}
 			tail := strings.TrimSpace(rest[rp+1:])
+			if kw == "macro" {
+				sf.Macro = true
+			}
 			if kw == "uf" {
 				sf.Ret = tail
 			} else {
@@ -207,6 +223,19 @@ func parseContractFile(path string) (*ContractFile, error) {
 				sf.Body = b
 			}
 			cf.Specs = append(cf.Specs, sf)
+			cur = nil
+			continue
+		case "decoded":
+			ci := strings.Index(rest, ":")
+			hd := strings.Fields(rest[:max(ci, 0)])
+			if ci < 0 || len(hd) != 3 || hd[1] != "by" {
+				return nil, fail("syntax: decoded Type by callee: expr")
+			}
+			c, err := parseClause(rest[ci+1:], path, ln)
+			if err != nil {
+				return nil, err
+			}
+			cf.Decoded = append(cf.Decoded, &Decoded{Type: hd[0], Callee: hd[2], C: c, Dir: cf.Dir})
 			cur = nil
 			continue
 		case "lemma":
@@ -316,14 +345,14 @@ func parseContractFile(path string) (*ContractFile, error) {
 		case "at", "after":
 			// at alias assert expr
 			fs := strings.SplitN(rest, " ", 3)
-			if len(fs) != 3 || fs[1] != "assert" {
-				return nil, fail("syntax: at alias assert expr")
+			if len(fs) != 3 || (fs[1] != "assert" && fs[1] != "define") {
+				return nil, fail("syntax: at alias assert expr | after alias define expr")
 			}
 			c, err := parseClause(fs[2], path, ln)
 			if err != nil {
 				return nil, err
 			}
-			cur.Asserts = append(cur.Asserts, SiteAssert{Alias: fs[0], C: c, After: kw == "after"})
+			cur.Asserts = append(cur.Asserts, SiteAssert{Alias: fs[0], C: c, After: kw == "after", Assume: fs[1] == "define"})
 		case "loop":
 			fs := strings.SplitN(rest, " ", 3)
 			if len(fs) != 3 {
